@@ -34,7 +34,7 @@ def budget(tier):
     ex = int(os.environ.get("VERIF_EXAMPLES", "0"))
     if tier == "quick":
         return dict(shards=16, examples=ex or 120, shrink_calls=60, shard_timeout=1500, time_budget=100)
-    return dict(shards=16, examples=ex or 4000, shrink_calls=400, shard_timeout=6 * 3600, time_budget=3 * 3600)
+    return dict(shards=16, examples=ex or 15000, shrink_calls=400, shard_timeout=6 * 3600, time_budget=1500)
 
 
 def _dec(draw, s):
